@@ -138,7 +138,7 @@ func (fr *frame) get(key ssa.Value) value {
 		return constValue(key)
 	case *ssa.Global:
 		fr.i.ensureInit(key.Pkg, fr)
-		if fr.i.initState[key.Pkg] == 4 && !zeroInitOK[key.Pkg.Pkg.Path()] {
+		if fr.i.initState[key.Pkg] == 4 && !zeroInitOK[key.Pkg.Pkg.Path()] && !zeroGlobalOK[key.String()] {
 			unsupported("global %s of a package whose initialiser is not run", key)
 		}
 		return fr.i.global(key)
@@ -232,7 +232,11 @@ func visitInstr(fr *frame, instr ssa.Instruction) continuation {
 		fr.env[instr] = fr.get(instr.Tuple).(tuple)[instr.Index]
 
 	case *ssa.Slice:
-		fr.env[instr] = slice(i, fr.get(instr.X), fr.get(instr.Low), fr.get(instr.High), fr.get(instr.Max))
+		var elemT types.Type
+		if st, ok := instr.Type().Underlying().(*types.Slice); ok {
+			elemT = st.Elem()
+		}
+		fr.env[instr] = slice(i, fr.get(instr.X), fr.get(instr.Low), fr.get(instr.High), fr.get(instr.Max), elemT)
 
 	case *ssa.Return:
 		switch len(instr.Results) {
@@ -518,6 +522,10 @@ var neverInit = map[string]bool{"runtime": true, "unsafe": true, "sync": true, "
 // counters) even though their initialiser is never run
 var zeroInitOK = map[string]bool{"sync": true, "sync/atomic": true, "runtime": true, "internal/godebug": true,
 	"internal/race": true, "internal/bytealg": true, "internal/cpu": true}
+
+// individual globals of uninitialised packages that harnesses may pass around
+// as opaque zero values (they only reach stubbed functions)
+var zeroGlobalOK = map[string]bool{"os.Interrupt": true, "os.Stdin": true, "os.Stdout": true, "os.Stderr": true}
 
 func skipInit(path string) bool {
 	return neverInit[path] || strings.HasPrefix(path, "internal/") || strings.HasPrefix(path, "runtime/") ||
